@@ -411,6 +411,25 @@ theorem step_inv (r : Reg) (op : Op) (hi : Inv r) : Inv (step r op) := by
     cases hg : get target r with
     | none => simpa using hi
     | some t => simpa using wrap_inv t w woid wh r hi
+  | getName n => exact hi
+  | getHash h => exact hi
+  | iterate => exact hi
+
+/-- under the invariant, the by-hash lookup misses exactly the hashes whose count is zero (absent) -/
+theorem getByHash_none_iff (r : Reg) (hi : Inv r) (h : H) : getByHash h r = none ↔ cnt h r.counts = 0 := by
+  rw [hi.exact h]
+  simp only [getByHash, Option.map_eq_none_iff, List.find?_eq_none, occ, List.length_eq_zero_iff, List.filter_eq_nil_iff]
+  constructor
+  · intro hh p hp; simpa using hh p hp
+  · intro hh p hp; simpa using hh p hp
+
+theorem getByHash_some (r : Reg) (h : H) (t : Task) (hs : getByHash h r = some t) :
+    t.hash = h ∧ ∃ k, (k, t) ∈ r.tasks := by
+  simp only [getByHash, Option.map_eq_some_iff] at hs
+  obtain ⟨p, hp, rfl⟩ := hs
+  have h1 := List.find?_some hp
+  have h2 := List.mem_of_find?_eq_some hp
+  exact ⟨by simpa using h1, p.1, h2⟩
 
 theorem foldl_inv (ops : List Op) : ∀ r, Inv r → Inv (ops.foldl step r) := by
   induction ops with
